@@ -33,7 +33,10 @@ import vlib  # noqa: E402
 B = 2048
 SINT_MIN = -(1 << 63)
 MODES = ("q0i", "q2i", "q0c")
-MODE_EVALUATOR = {"q0i": "fint", "q0c": "c", "q2i": "cfold"}
+# route labels used in finding keys: -Q0 interpreted (fint.c evaluates), -Q2 interpreted (of_cfold.c folds what it can,
+# fint.c the rest), -Q0 C executable (genc mapping + run-time), -Q2 interpreted with a non-constant first operand
+# (of_peep.c simplifies, fint.c evaluates).  Hook events carry "fint" / "cfold".
+MODE_EVALUATOR = {"q0i": "q0i", "q0c": "q0c", "q2i": "q2i", "q2v": "q2v"}
 Q2_OPTS = ["-Q2", "-Qinline-size=1000000"]
 
 ALDOR_TYPE = {"Bool": "BBool", "Char": "BChar", "Byte": "BByte", "HInt": "BHInt", "SInt": "BSInt",
@@ -465,6 +468,10 @@ def argclass(op, args, sig):
         return "a<b" if args[0] < args[1] else "a>=b"
     if op == "BIntPowerMod":
         return "exp=0,|m|=1" if args[1] == 0 and abs(args[2]) == 1 else "other"
+    if op == "SIntGcd" and SINT_MIN in args:
+        return "operand=SIntMin"
+    if op[4:] in ("RPlus", "RMinus", "RTimes", "RDivide", "RTimesPlus") or op in ("SFloRound", "DFloRound"):
+        return "mode=%d" % args[-1]
     out = []
     for v, t in zip(args, s):
         if t == "Bool":
@@ -479,7 +486,7 @@ def argclass(op, args, sig):
         elif t == "Str":
             out.append("radix" if "r" in v else "decimal")
         else:
-            out.append("flo")
+            out.append("negative-literal" if str(v).startswith("-") else "literal")
     if len(out) == 2 and s[0] == s[1] and s[0] in ("Bool", "Char") and op[4:] in ("EQ", "NE", "LT", "LE"):
         return "a=b" if args[0] == args[1] else "a<b" if args[0] < args[1] else "a>b"
     return ",".join(out) if out else "-"
